@@ -216,7 +216,12 @@ def r1_escaping(ctx):
     f = ctx.func('error_html', 'error_html.gen_seg')
     # every element value read from the segment reaches the output through escape_html_chars: each get_value() call
     # that is not part of a test sits inside the argument of an escape call
-    gvs = [c for c in A.calls_in(f) if A.call_target(c)[1] == 'get_value']
+    def _root(e):
+        while isinstance(e, (ast.Attribute, ast.Subscript, ast.Call)):
+            e = e.func if isinstance(e, ast.Call) else e.value
+        return e.id if isinstance(e, ast.Name) else None
+    gvs = [c for c in A.calls_in(f) if isinstance(c.func, ast.Attribute) and c.func.attr in ('get_value', 'format')
+           and _root(c.func.value) == 'seg_data']
     bad_gv = []
     for c in gvs:
         p_ = A.parent(c)
